@@ -34,6 +34,7 @@ const L21_READ: Shape = L21S.with_commit(2).with_persisted(2).with_peers(&[PeerS
 const L21_READ_OLDTERM: Shape = L21.with_terms(&[1, 1, 2]).with_term(2).with_flags(false, false, false).with_commit(2).with_persisted(2).with_peers(&[PeerShape::replicate(2, 4, 0).matched(3), PeerShape::replicate(3, 4, 0).matched(3)]);
 const L5_READ: Shape = L21_READ.with_conf(&[1, 2, 3, 4, 5], &[], &[], &[], false).with_peers(&[PeerShape::replicate(2, 4, 0).matched(3), PeerShape::replicate(3, 4, 0).matched(3), PeerShape::replicate(4, 4, 0).matched(3), PeerShape::replicate(5, 4, 0).matched(3)]);
 const LJ_READ: Shape = L21_READ.with_conf(&[1, 2, 3], &[1, 3, 4], &[], &[], false).with_peers(&[PeerShape::replicate(2, 4, 0).matched(3), PeerShape::replicate(3, 4, 0).matched(3), PeerShape::replicate(4, 4, 0).matched(3)]);
+const LJ1_READ: Shape = L21_READ.with_conf(&[1], &[1, 2, 3], &[], &[], false);
 const LL_READ: Shape = L21_READ.with_conf(&[1, 2, 3], &[], &[4], &[], false).with_peers(&[PeerShape::replicate(2, 4, 0).matched(3), PeerShape::replicate(3, 4, 0).matched(3), PeerShape::replicate(4, 4, 0).matched(3)]);
 const S1_READ_OLD: Shape = Shape::follower3(3, 0).with_role(StateRole::Leader).with_conf(&[1], &[], &[], &[], false).with_terms(&[1, 2, 5]).with_term(5).with_commit(2).with_applied(2).with_persisted(3).with_flags(false, false, false);
 const S1_READ: Shape = S1_READ_OLD.with_commit(3);
@@ -277,7 +278,7 @@ harnesses! {
     { voteresp_dup_flip, "C02,C03", quick, unwind = 8,
       "candidate whose peer 2 already rejected receives a (duplicate) grant from 2 -> the first answer stands, no leader",
       |s| c02::voteresp_step(s, &CAND3_DUP, 2, false, false, 5) }
-    { voteresp_wrong_kind, "C02,C16,C03", quick, unwind = 8,
+    { voteresp_wrong_kind, "C02,C16,C03,C01", quick, unwind = 8,
       "candidate receives a stale pre-vote grant -> ignored",
       |s| c02::voteresp_step(s, &CAND3, 2, true, false, 5) }
     { voteresp_stale_term, "C02,C03", quick, unwind = 8,
@@ -423,6 +424,9 @@ harnesses! {
     { leader_tick_timeout, "C17,C10,C16,C20", quick, unwind = 8,
       "leader tick reaching election_timeout with a pending transfer: transfer abandoned; heartbeat due -> one per peer",
       |s| c04::leader_tick(s, &L21_HB_PROBE, 9, 2, true) }
+    { leader_tick_timeout_cq, "C17,C10,C16", quick, unwind = 8,
+      "same with check_quorum on and a quorum of recently active peers: the leader stays in office and the pending transfer is abandoned all the same",
+      |s| c04::leader_tick(s, &L21_CQ_OK, 9, 2, true) }
     { leader_tick_quiet, "C10,C17", quick, unwind = 8,
       "leader tick in the middle of both intervals: nothing happens, transfer stays pending",
       |s| c04::leader_tick(s, &L21_HB_PROBE, 3, 0, true) }
@@ -454,6 +458,9 @@ harnesses! {
     { rn_async_overwrite, "C07,C04,C14,C06,C20", quick, unwind = 8,
       "RawNode follower with an in-flight Ready (entries 2..3 of term 1 written, fsync notice outstanding): a new leader's append overwrites 2..3 (term 2) and commits 3, then the stale notice arrives -> persisted must not move onto the new, unwritten entries; nothing unpersisted is handed out",
       |s| rawnode::async_overwrite(s, &RnShape::of(RF_ASYNC).records(&[(1, Some((3, 1)), None)], 1), &Input::append(5, 1, 1, &[2, 2], 3), 1) }
+    { rn_async_overwrite_last, "C07,C04,C14,C06", quick, unwind = 8,
+      "same, but the new leader's append overwrites exactly the last in-flight entry (index 3) - the stale notice names the very index at which the unwritten suffix now starts, and the store still holds the old entry with the noticed term",
+      |s| rawnode::async_overwrite(s, &RnShape::of(RF_ASYNC).records(&[(1, Some((3, 1)), None)], 1), &Input::append(5, 2, 1, &[2], 3), 1) }
     { rn_leader_propose, "C06,C07,C13,C20", quick, unwind = 8,
       "RawNode leader (term persisted): propose -> Ready releases the appends immediately (leader), carrying a durable term; entries handed once; advance persists and may commit",
       |s| rawnode::cycle(s, &RnShape::of(RL_ACTIVE), &Input::propose(2), &Input::NONE) }
@@ -466,7 +473,7 @@ harnesses! {
     { rn_singleton_campaign, "C06,C20,C02", quick, unwind = 8,
       "RawNode single voter without learners campaigns: wins in the same step; Ready contract",
       |s| rawnode::cycle(s, &RnShape::of(RS1), &Input::HUP, &Input::NONE) }
-    { rn_singleton_learner_campaign, "C06,C20", quick, unwind = 8,
+    { rn_singleton_learner_campaign, "C06,C20,C05", quick, unwind = 8,
       "RawNode single voter WITH a learner campaigns: it wins inside the same step and appends to the learner; those messages must not be released before the new term and self-vote are persisted",
       |s| rawnode::cycle(s, &RnShape::of(RS1L), &Input::HUP, &Input::NONE) }
     { rn_snapshot, "C15,C07,C06,C20", quick, unwind = 8,
@@ -484,6 +491,9 @@ harnesses! {
     { rn_restart_compacted_learner, "C06,C02,C09,C15", thorough, unwind = 8,
       "same from a compacted image (snapshot point 4, entries 5..=6) with a learner in the configuration",
       |s| rawnode::restart(s, 4, 2, 1, 1, true) }
+    { rn_restart_joint, "C06,C12,C20,C09", quick, unwind = 8,
+      "RawNode::new on a durable image taken in the middle of a membership change ({1,2}&&{1,2,3}, learner 4, voter 3 staged as learner, auto-leave): restart succeeds and reproduces the joint configuration exactly",
+      |s| rawnode::restart_conf(s, 0, 3, 2, 1, true, true) }
     { rn_step_rejects, "C20", quick, unwind = 8,
       "RawNode::step refuses the five local message types and responses from a non-member, state untouched",
       |s| rawnode::step_rejects(s, &RnShape::of(RF)) }
@@ -503,7 +513,7 @@ harnesses! {
     { snap_install_continue, "C15,C05,C20", quick, unwind = 8,
       "follower: MsgSnapshot at index 5 beyond the log -> installed: commit/last/boundary term/configuration/progress as if the log had been applied up to 5; a following MsgAppend at (5, term) is accepted and the log continues at 6",
       |s| c15::snapshot_step(s, &FS, 5, 4, &[1, 2, 3], &[], &[], &[], false, true) }
-    { snap_install_joint, "C15,C12,C09", quick, unwind = 8,
+    { snap_install_joint, "C15,C12,C09,C20", quick, unwind = 8,
       "follower: snapshot carrying a joint configuration {1,2}&&{1,2,3} with learner 4 and staged learner 3 -> configuration reproduced exactly, node stays promotable",
       |s| c15::snapshot_step(s, &FS, 5, 4, &[1, 2], &[1, 2, 3], &[4], &[3], false, false) }
     { snap_install_outgoing_only, "C15,C09,C10", quick, unwind = 8,
@@ -522,7 +532,7 @@ harnesses! {
       "same, but the storage cannot produce a snapshot right now (SnapshotTemporarilyUnavailable) -> nothing sent, progress unchanged",
       |s| c04::hbresp_step_snap(s, &LC_NEED, 2, false) }
     // ---------------- C08 read index ----------------
-    { read_quorum3, "C08", quick, unwind = 8,
+    { read_quorum3, "C08,C04", quick, unwind = 8,
       "leader of 3 (committed in its term): local read request, then a heartbeat response with the context from one peer -> quorum (self + 1): read state with the commit index recorded at request time",
       |s| c08::leader_read(s, &L21_READ, 0, &[(2, 7)], true) }
     { read_wrong_ctx, "C08", quick, unwind = 8,
@@ -549,7 +559,16 @@ harnesses! {
     { read_dup_ctx, "C08,C20", quick, unwind = 8,
       "leader of 3: forwarded reads with contexts A, B, A (duplicate while pending), one quorum round on B serves both, then a fresh read is served: queue and pending map stay consistent",
       |s| c08::read_dups(s, &L21_READ) }
-    { read_forwarded, "C08", quick, unwind = 8,
+    { read_two_pending, "C08", quick, unwind = 8,
+      "leader of 3: reads A (local) and B (forwarded) pending; a quorum acknowledges A's heartbeat only -> A released, B still pending and unanswered; B's own quorum round then answers B",
+      |s| c08::read_two_pending(s, &L21_READ) }
+    { read_joint_single_incoming, "C08,C12", quick, unwind = 8,
+      "leader in joint config {1}&&{1,2,3} (shrinking to itself): no single-voter fast path - the read waits for a majority of the outgoing half",
+      |s| c08::leader_read(s, &LJ1_READ, 0, &[], false) }
+    { read_joint_single_incoming_ack, "C08,C12", quick, unwind = 8,
+      "same, with an acknowledgement from 2 (majority of {1,2,3} with self) -> released",
+      |s| c08::leader_read(s, &LJ1_READ, 0, &[(2, 7)], true) }
+    { read_forwarded, "C08,C04", quick, unwind = 8,
       "leader of 3: request forwarded by follower 3, ack from 2 -> MsgReadIndexResp to 3 only, nothing in the leader's own read states",
       |s| c08::leader_read(s, &L21_READ, 3, &[(2, 7)], true) }
     { read_not_committed_in_term, "C08", quick, unwind = 8,
@@ -595,6 +614,18 @@ harnesses! {
     { hup_f30_clear, "C09,C03,C16", quick, unwind = 8,
       "same with only normal entries in (applied, commit]: campaigns (pre-vote or vote per flag), requests carry true last index/term/commit",
       |s| c09::hup_step(s, &F30.with_applied(1).with_commit(3).with_etypes(&[1, 0, 0]), 0) }
+    { hup_f30_pending_last_only, "C09,C03,C02", quick, unwind = 8,
+      "MsgHup on a follower with exactly one committed-but-unapplied entry (applied=2, commit=3) which is a ConfChangeV2: must not campaign",
+      |s| c09::hup_step(s, &F30.with_applied(2).with_commit(3).with_etypes(&[0, 0, 2]), 0) }
+    { hup_f30_pending_paged_mid, "C09,C03", quick, unwind = 8,
+      "MsgHup with the scan of unapplied entries paged one entry at a time (max_committed_size_per_ready = 0; log terms [1,2,3] and term 5 concrete so that entry sizes are), applied=0, commit=3, the ConfChange is the middle entry: a later page without membership change must not clear the hit",
+      |s| c09::hup_step_paged(s, &F30.with_terms(&[1, 2, 3]).with_term(5).with_applied(0).with_commit(3).with_etypes(&[0, 1, 0]), 0, Some(0)) }
+    { hup_f30_pending_paged_last, "C09,C03", quick, unwind = 8,
+      "same paging, the ConfChangeV2 is in the last page: the scan must not stop after a first page without membership change",
+      |s| c09::hup_step_paged(s, &F30.with_terms(&[1, 2, 3]).with_term(5).with_applied(0).with_commit(3).with_etypes(&[0, 0, 2]), 0, Some(0)) }
+    { timeoutnow_paged_last, "C09,C17", quick, unwind = 8,
+      "MsgTimeoutNow with the paged scan, ConfChangeV2 in the last page: the transfer target must not campaign",
+      |s| c09::hup_step_paged(s, &F30.with_terms(&[1, 2, 3]).with_term(5).with_applied(0).with_commit(3).with_etypes(&[0, 0, 2]), 1, Some(0)) }
     // ---------------- C11 quorum arithmetic ----------------
     { @nostub quorum_ci_0_0, "C11", quick, unwind = 8,
       "JointConfig/MajorityConfig::committed_index for halves of 0 and 0 voters: symbolic distinct ids per half (overlap free), symbolic 64-bit acked indexes, some ids unknown to the indexer; group commit with symbolic groups 0..3; counting oracle",
@@ -758,6 +789,12 @@ harnesses! {
     { @nostub quorum_tracker_2, "C11", quick, unwind = 8,
       "same for the two-voter configuration {1,2} (even size: a single rejection decides)",
       |s| c11::tracker(s, &[1, 2], &[]) }
+    { @nostub quorum_tracker_gc_simple, "C11", quick, unwind = 8,
+      "ProgressTracker::maximal_committed_index (real) with group commit enabled on voters {1,2,3}: symbolic matched and commit groups 1..=3 -> min(quorum index, largest index replicated into two groups)",
+      |s| c11::tracker_gc(s, &[1, 2, 3], &[]) }
+    { @nostub quorum_tracker_gc_joint, "C11,C12", quick, unwind = 8,
+      "same in the joint configuration {1,2,3}&&{3,4,5}: group commit applies to each half, the result is the minimum",
+      |s| c11::tracker_gc(s, &[1, 2, 3], &[3, 4, 5]) }
     // ---------------- C12 configuration-change algebra ----------------
     { cc_simple_s3l_addnode_0, "C12", quick, unwind = 8,
       "Changer::simple on voters {1,2,3} + learner 4: AddNode(0); reference-semantics equality, invariants (voters/learners disjoint, staged learners inside outgoing, >=1 voter, progress = members), <=1 voter changed for simple, quorum overlap old/new with two symbolic quorums, reject leaves everything untouched",
@@ -1106,7 +1143,7 @@ harnesses! {
     { log_cursors_compacted, "C14,C04,C01", thorough, unwind = 8,
       "same on a compacted log (snapshot point 7)",
       |s| c14::cursors(s, &LG21B) }
-    { log_slice_limit_boundary, "C14,C13", quick, unwind = 8,
+    { log_slice_limit_boundary, "C14,C13,C05", quick, unwind = 8,
       "RaftLog::slice over the stable/unstable boundary with size limits at every prefix-sum boundary (-1, exact, +1), 0 and NO_LIMIT: entries 1..=4 (2 stable + 2 unstable), the second stable entry carries a 40-byte payload -> result is always the maximal contiguous prefix within the limit, at least one entry",
       |s| c14::slice_limit(s, &LG22, &[0, 40, 0, 0], 1, 5) }
     { log_slice_limit_unstable, "C14,C13", quick, unwind = 8,
@@ -1153,6 +1190,24 @@ harnesses! {
     { c18_seq_shrink, "C18", quick, unwind = 10,
       "public API script new(3): add,add,set_cap(1),add(refused: full),free_first_one; drain-compare",
       |s| c18::seq(s, 3, &[0,0,11,0,2]) }
+    { c18_seq_grow_wrap, "C18,C13", quick, unwind = 10,
+      "Inflights::new(1): add, set_cap(2) on the allocated window (Vec::reserve over-allocates), add, free_first_one, add (must wrap at the logical capacity, not at the allocation), drain-compare",
+      |s| c18::seq(s, 1, &[0,12,0,2,0]) }
+    { c18_seq_grow_wrap3, "C18,C13", quick, unwind = 10,
+      "Inflights::new(2): add, set_cap(3) on the allocated window (reserve grows the allocation to 4), add, add, free_first_one twice, add (wraps at the logical capacity 3), drain-compare",
+      |s| c18::seq(s, 2, &[0,13,0,0,2,2,0]) }
+    { c18_step_c2_b1_pn_slack, "C18", quick, unwind = 12,
+      "inductive step, cap 2, buffer length 1, allocation 2 slots larger than cap (state after a growing set_cap)",
+      |s| c18::step_slack(s, 2, 1, true, None, 4, 2) }
+    { c18_step_c2_b2_pn_slack, "C18", quick, unwind = 12,
+      "inductive step, cap 2, buffer length 2, allocation 2 slots larger than cap",
+      |s| c18::step_slack(s, 2, 2, true, None, 4, 2) }
+    { c18_step_c2_b2_p1_slack, "C18", quick, unwind = 12,
+      "inductive step, cap 2, buffer length 2, pending shrink to 1, allocation 2 slots larger than cap",
+      |s| c18::step_slack(s, 2, 2, true, Some(1), 4, 2) }
+    { c18_step_c3_b3_pn_slack, "C18", thorough, unwind = 13,
+      "inductive step, cap 3, buffer length 3, allocation 3 slots larger than cap",
+      |s| c18::step_slack(s, 3, 3, true, None, 5, 3) }
     { c18_step_c0_all, "C18", quick, unwind = 12,
       "one op of every kind (add/free_to/free_first_one/reset/maybe_free_buffer/set_cap(0..=2)) from every II-state with cap=0: all buffer lengths, allocated or not, pending shrinks, ring rotations, fill levels; symbolic contents",
       |s| c18::step_all(s, 0, 2) }
